@@ -121,8 +121,9 @@ def state_invariants(rep, tname):
                     b = ir_strip(ir.resolve_let(fn, b))     # bounds hoisted into immutable lets are the same bounds (configuration fields do not change)
                 if b is None and is_path(r):
                     # relative setter: new_ratio = original * rel, stored under `rel <= self.max_relative_ratio`
-                    bd = ir.binding_of(fn, r, r["p"])
-                    init = ir_strip(bd[1].get("init")) if bd and bd[0] == "let" else None
+                    init = ir_strip(ir.resolve_let(fn, r, depth=4))
+                    if init is r:
+                        init = None
                     if init is not None and init.get("k") == "bin" and init["op"] == "*":
                         for o, rel in ((init["l"], init["r"]), (init["r"], init["l"])):
                             if nbit(o) == "self.resample_ratio_original":
